@@ -155,6 +155,7 @@ int main(int argc, char** argv) {
     add(wls[i], P["chain"], true, {2}, 2, -1, 1, 2);
     add(wls[i], P["late-push"], false, {1, 1}, 2, 1, 2, 3);
     add(wls[i], P["late-push"], false, {2}, 2, -1, 2, 3);
+    add(wls[i], P["side-chain"], false, {2}, 2, i % 3 == 1 ? 1 : -1, 2, 3);
   }
   // generated operator programs (see fe_generated_programs): the whole family
   // on the default worklist in the thorough tier, every 9th in the quick tier
